@@ -30,6 +30,7 @@ RevXY == InvOf(TabXY)
 RevZM == InvOf(TabZM)
 
 INSTANCE EsriCodec WITH FXY <- TabXY, FZM <- TabZM, RXY <- RevXY, RZM <- RevZM
+F == INSTANCE F64Bits
 
 On(p) == Meta.prop = "all" \/ Meta.prop = p
 
@@ -143,8 +144,67 @@ TMacro ==
     /\ Ev("macro") /\ UNCHANGED cur
     /\ Rec[l].tuple = Rec[l].built /\ Rec[l].struct = Rec[l].built
 
+(***************************************************************************)
+(* C01 and C05 over RAW doubles (F64Bits): every coordinate is its 8 bytes, *)
+(* nothing is abstracted to ids.  o = the shape as constructed, g = as read *)
+(* back.  Ring roles are not claimed here (no exact arithmetic on arbitrary *)
+(* doubles): that is the id-level cases' and C16's business.               *)
+(***************************************************************************)
+ZeroBits == << 0, 0, 0, 0, 0, 0, 0, 0 >>
+RawPoints(s) == Concat(s.parts)
+Dim(ps, d) == [i \in 1..Len(ps) |-> ps[i][d]]
+NoNaNIn(vs) == \A i \in 1..Len(vs) : ~F!IsNaN(vs[i])
+
+RawReadBack(o, g) ==
+    /\ g.t = o.t /\ Len(g.parts) = Len(o.parts)
+    /\ g.box = o.box                                              \* bit-identical per-shape box
+    /\ (o.t = 31 => g.kinds = o.kinds)
+    /\ \A i \in 1..Len(o.parts) :
+         /\ Len(g.parts[i]) = Len(o.parts[i])
+         /\ \A j \in 1..Len(o.parts[i]) :
+              LET a == o.parts[i][j]
+                  c == g.parts[i][j]
+              IN  /\ c[1] = a[1] /\ c[2] = a[2] /\ c[3] = a[3]      \* bit-identical X, Y, Z (NaN payloads, -0.0 included)
+                  /\ c[4] = IF IsMultiVertex(o.t) /\ StoresM(o.t) THEN F!NormMBits(a[4]) ELSE a[4]
+
+\* the box a constructor gave a multi-vertex shape: exact extremes, per dimension without NaN
+RawShapeBoxOK(s) ==
+    LET ps == RawPoints(s)
+        DimOK(d, lo, hi) == NoNaNIn(Dim(ps, d)) => (F!IsMinOf(s.box[lo], Dim(ps, d)) /\ F!IsMaxOf(s.box[hi], Dim(ps, d)))
+    IN  (IsMultiVertex(s.t) /\ ps # << >>) =>
+          /\ DimOK(1, 1, 3) /\ DimOK(2, 2, 4)
+          /\ StoresZ(s.t) => DimOK(3, 5, 6)
+          /\ StoresM(s.t) => DimOK(4, 7, 8)
+
+\* the header box of the file holding S (as HeaderBoxOK, on bytes)
+RawHeaderOK(t, S, hb) ==
+    LET ps == Concat([i \in 1..Len(S) |-> RawPoints(S[i])])
+        ms == Dim(ps, 4)
+        realM == \A i \in 1..Len(ms) : ~F!IsNoDataBits(ms[i])
+    IN  ps # << >> =>
+          /\ F!IsMinOf(hb[1], Dim(ps, 1)) /\ F!IsMinOf(hb[2], Dim(ps, 2))
+          /\ F!IsMaxOf(hb[3], Dim(ps, 1)) /\ F!IsMaxOf(hb[4], Dim(ps, 2))
+          /\ IF HasZ(t) THEN NoNaNIn(Dim(ps, 3)) => (F!IsMinOf(hb[5], Dim(ps, 3)) /\ F!IsMaxOf(hb[6], Dim(ps, 3)))
+             ELSE hb[5] = ZeroBits /\ hb[6] = ZeroBits
+          /\ IF HasM(t) THEN realM => (F!IsMinOf(hb[7], ms) /\ F!IsMaxOf(hb[8], ms))
+             ELSE IF t = 31 THEN TRUE
+             ELSE hb[7] = ZeroBits /\ hb[8] = ZeroBits
+
+TRaw ==
+    /\ Ev("raw") /\ UNCHANGED cur
+    /\ LET e == Rec[l]
+       IN  /\ "buildPanic" \notin DOMAIN e /\ "writeFail" \notin DOMAIN e
+           /\ On("C05") =>
+                /\ \A i \in 1..Len(e.shapes) : RawShapeBoxOK(e.shapes[i])
+                /\ Len(e.hdr) = 8 /\ RawHeaderOK(e.t, e.shapes, e.hdr)
+           /\ On("C01") =>
+                \A k \in 1..Len(e.reads) :
+                    /\ e.reads[k].err = ""
+                    /\ Len(e.reads[k].items) = Len(e.shapes)
+                    /\ \A i \in 1..Len(e.shapes) : RawReadBack(e.shapes[i], e.reads[k].items[i])
+
 Init == l = 2 /\ cur = [t |-> 0, shapes |-> << >>]
-Next == TCase \/ TWritten \/ TSizes \/ TReadback \/ TBigSize \/ THeader \/ TAccess \/ TMacro
+Next == TCase \/ TWritten \/ TSizes \/ TReadback \/ TBigSize \/ THeader \/ TAccess \/ TMacro \/ TRaw
 Spec == Init /\ [][Next]_vars
 
 \* acceptance: every line was consumed (line 1 is the meta line)
